@@ -68,6 +68,8 @@ DESIGN_EXTRA = {
             ("MC_BalloonsReconf", "MC_BalloonsReconf_leak_balloonless.cfg", "Inv_StoppedHoldsNothing"),     # F-C09-5 shape
             ("MC_BalloonsReconf", "MC_BalloonsReconf_readmit_exited.cfg", "Inv_StoppedHoldsNothing"),       # F-C09-1 shape
             ("MC_BalloonsReconf", "MC_BalloonsReconf_reach.cfg", "Goal_BalloonlessAlive")],                 # reachability
+    # CPU classes at design level: a creation undone after newBalloon must return the CPUs with the idle class (F-C02-3)
+    "C02": [("MC_Balloons", "MC_Balloons_undoclass.cfg", "Inv_CpuClass")],
     "C13": [("MC_BalloonsReconf", "MC_BalloonsReconf_none.cfg", None),
             ("MC_TopologyAware", "MC_TopologyAware_quick.cfg", None),
             ("MC_TopologyAware", "MC_TopologyAware_strictreserve.cfg", "Inv_ReinstateAnyOrder"),
